@@ -23,8 +23,8 @@ SPEC = dict(
              loop_bounds={r'^_ZNSt6ranges14__copy_or_move': 110}, instances=SEND),
         dict(name='reenter', harness='h_reenter.cpp', tus=TUS, models=['qt_core.c', 'qt_list.c', 'qt_dom.c', 'models.c'], shadow_task=True,
              loop_bounds={r'^_ZNSt6ranges14__copy_or_move': 110},
-             instances=[I('reenter_opened', 'reenter', 256 | 0 << 4, 'handler of a cancelled request re-sends under a fresh id during onSessionOpened(new session)'),
-                        I('reenter_closed', 'reenter', 256 | 1 << 4, 'same during onSessionClosed(cannot resume)')]),
+             instances=[I('reenter_opened', 'reenter', 768 | 0 << 4, 'handler of a cancelled request re-sends under a fresh id during onSessionOpened(new session)'),
+                        I('reenter_closed', 'reenter', 768 | 1 << 4, 'same during onSessionClosed(cannot resume)')]),
         dict(name='chain', harness='h_chain.cpp', tus=TUS, models=['qt_core.c', 'qt_list.c', 'qt_dom.c', 'models.c'], shadow_task=True,
              loop_bounds={r'^_ZNSt6ranges14__copy_or_move': 110},
              instances=[
